@@ -15,7 +15,10 @@ RULE = (
     "{no offset, offset int/expression in {0,1,beyond}}; plus random cases over 10 query shapes (desc, "
     "join, DISTINCT, DISTINCT join, GROUP BY, subquery, non-total order for WITH TIES, no ORDER BY) on "
     "random small tables with limit/offset values relative to the result length (0, 1, len-1, len, "
-    "len+k). non-trivial = ordered statement with a row limiting clause on a non-empty result"
+    "len+k); plus cache histories: 2-3 statements of one structure with different limit/offset values (a "
+    "zero first / later / never) compiled through ONE compiled cache (_compile_w_cache, construct_params with "
+    "the extracted parameters, post-compile rendering), each execution's final SQL read back and executed / "
+    "interpreted. non-trivial = ordered statement with a row limiting clause on a non-empty result"
 )
 TRUSTED = [
     "hand-written Gallina transcription (coq/sql/Limit.v which_form) of the limit/fetch/TOP/ROW_NUMBER/ROWNUM "
@@ -473,10 +476,59 @@ def gen_cases(rng, tier):
         if qid == Q_UNORDERED:
             kind = "unordered"
         cases.append({"in": _mk(d, lim, off, qid, rng.randint(0, 1), t, u), "kind": kind})
+    # ---- cache histories: statements of ONE structure, different values, through one compiled cache
+    nhist = 2500 if tier == "thorough" else 420
+    for k in range(nhist):
+        t, u = (D0 if k % 3 == 0 else rng.choice(datasets))
+        d = k % DIALECTS if k < 5 * DIALECTS else rng.choice([4, 6, 6, 1, rng.randrange(DIALECTS)])
+        qid = rng.choice([Q_PLAIN, Q_PLAIN, Q_DESC, Q_JOIN, Q_DISTINCT, Q_GROUP, Q_SUBQ])
+        pre, distinct, nkey, ordered = _reference(qid, t, u)
+        n = len(_dedup(pre) if distinct else pre)
+        vals = [0, 0, 1, 2, 3, max(n - 1, 0), n, n + 2]
+        r = rng.random()
+        if r < 0.15:
+            shape = None
+        elif r < 0.8:
+            shape = [0, rng.randint(0, 1)]
+        else:
+            pc, ti = rng.choice([(0, 0), (0, 0), (0, 1), (1, 0)])
+            shape = [1, rng.randint(0, 1), pc, ti]
+            if ti:
+                qid = Q_TIES
+                pre, distinct, nkey, ordered = _reference(qid, t, u)
+        oshape = None if (rng.random() < 0.25 and shape is not None) else [rng.randint(0, 1)]
+        nsteps = rng.randint(2, 3)
+        zero_at = rng.randrange(nsteps + 1)  # a step whose values are 0 (first / later / never)
+        steps = []
+        for i in range(nsteps):
+            z = i == zero_at
+            lv = 0 if z and rng.random() < 0.5 else rng.choice(vals)
+            ov = 0 if z else rng.choice(vals)
+            if shape is None:
+                lim = []
+            elif shape[0] == 0:
+                lim = [0, shape[1], lv]
+            else:
+                lim = [1, shape[1], (rng.choice([0, 34, 50, 100]) if shape[2] else lv), shape[2], shape[3]]
+            steps.append([lim, [] if oshape is None else [oshape[0], ov]])
+        tp, up = _pack(t, u)
+        cases.append({"in": [100, d, steps, ordered, distinct, nkey, pre, [qid, 2, tp, up]], "kind": "cache-history"})
     return cases
 
 
+def _is_hist(inp):
+    return inp[0] == 100
+
+
+def _step_inputs(inp):
+    """a history as the list of single-statement inputs it consists of"""
+    _, d, steps, ordered, distinct, nkey, pre, impl_part = inp
+    return [[d, lim, off, ordered, distinct, nkey, pre, impl_part] for lim, off in steps]
+
+
 def nontrivial(c):
+    if _is_hist(c["in"]):
+        return any(nontrivial({"in": x}) for x in _step_inputs(c["in"]))
     d, lim, off, ordered, distinct, nkey, pre, _ = c["in"]
     return bool(ordered and (lim or off) and pre)
 
@@ -520,13 +572,24 @@ def impl_setup():
     or1._supports_offset_fetch = True
     sdw = sqlite.dialect()
     sdw.statement_compiler = WrapperInnerCompiler
+    # the same eight configurations with named parameters, for the compiled-cache path (the final SQL
+    # is obtained by substituting the re-bound values for :name)
+    named = [default.DefaultDialect(paramstyle="named"), sqlite.dialect(paramstyle="named"),
+             mysql.dialect(paramstyle="named"), postgresql.dialect(paramstyle="named"),
+             mssql.dialect(paramstyle="named"), mssql.dialect(paramstyle="named"),
+             oracle.dialect(paramstyle="named"), oracle.dialect(paramstyle="named")]
+    named[4]._supports_offset_fetch = False
+    named[5]._supports_offset_fetch = True
+    named[6]._supports_offset_fetch = False
+    named[7]._supports_offset_fetch = True
+    _S["named"] = named
     _S.update(
         sa=sa,
         dialects=[default.DefaultDialect(), sqlite.dialect(), mysql.dialect(), postgresql.dialect(), ms0, ms1, or0, or1],
         sdw=sdw,
         engines={},
         facts={"executed_on_sqlite": 0, "interpreted": 0, "wrapper_executed": 0, "wrapper_order_kept": 0,
-               "oracle_interpreted": 0, "compile_errors": 0},
+               "oracle_interpreted": 0, "compile_errors": 0, "cache_hits": 0, "cache_misses": 0},
     )
     m = sa.MetaData()
     _S["t"] = sa.Table("t", m, sa.Column("id", sa.Integer, primary_key=True), sa.Column("x", sa.Integer), sa.Column("g", sa.Integer))
@@ -590,6 +653,9 @@ def _clause(simple, v, ek, name):
 
 
 def _apply(base, lim, off, ek):
+    # ek: how a non-int clause is given: 0 limit=bindparam offset=literal_column, 1 the reverse,
+    # 2 both bindparam (cache histories: the values stay out of the cache key)
+    ek, oek = (ek, 1 - ek) if ek < 2 else (0, 0)
     st = base
     if lim:
         if lim[0] == 0:
@@ -597,7 +663,7 @@ def _apply(base, lim, off, ek):
         else:
             st = st.fetch(_clause(lim[1], lim[2], ek, "fetch_p"), percent=bool(lim[3]), with_ties=bool(lim[4]))
     if off:
-        st = st.offset(_clause(off[0], off[1], 1 - ek, "off_p"))
+        st = st.offset(_clause(off[0], off[1], oek, "off_p"))
     return st
 
 
@@ -838,9 +904,156 @@ def _interpret(plan, full, nkey):
     raise ValueError(plan)
 
 
+_OPS = {"<": 0, "<=": 1, ">": 2, ">=": 3, "=": 4, "!=": 5}
+_RE_PRED = re.compile(r"(ROWNUM|ora_rn|mssql_rn) (<=|>=|!=|<|>|=) (-?\d+(?: \+ -?\d+)*)")
+
+
+def _text_preds(where, col):
+    out = []
+    for part in where.split(" AND "):
+        m = _RE_PRED.fullmatch(part.strip())
+        if not m or m.group(1) != col:
+            out.append([9, [2]])
+            continue
+        nums = [int(x) for x in m.group(3).split(" + ")]
+        tree = [0, nums[0]]
+        for n in nums[1:]:
+            tree = [1, tree, [0, n]]
+        out.append([_OPS[m.group(2)], tree])
+    return out
+
+
+def _peel(sql):
+    """SELECT <cols> FROM (<inner>) [AS] anon_k [WHERE <w>]  ->  (cols, inner, w or None)"""
+    i = sql.find(" FROM (")
+    if not sql.startswith("SELECT ") or i < 0:
+        return None
+    depth = 0
+    j = i + 6
+    for j in range(i + 6, len(sql)):
+        if sql[j] == "(":
+            depth += 1
+        elif sql[j] == ")":
+            depth -= 1
+            if depth == 0:
+                break
+    else:
+        return None
+    m = re.fullmatch(r" (?:AS )?anon_\d+(?: WHERE (.*))?", sql[j + 1:])
+    if not m:
+        return None
+    return sql[7:i], sql[i + 7:j], m.group(1)
+
+
+def _final_sql(stmt, dialect, cache):
+    """the SQL an execution would send: compiled through the cache, values re-bound, post-compile
+    (literal_execute) parameters rendered - as DefaultExecutionContext._init_compiled does"""
+    compiled, extracted, pdict, hit = stmt._compile_w_cache(
+        dialect, compiled_cache=cache, column_keys=[], for_executemany=False, schema_translate_map=None
+    )
+    params = compiled.construct_params(None, escape_names=False, extracted_parameters=extracted, _collected_params=pdict)
+    sql = compiled.string
+    if compiled.literal_execute_params or compiled.post_compile_params:
+        es = compiled._process_parameters_for_postcompile(params)
+        sql = es.statement
+        params = dict(params)
+        params.update(es.additional_parameters)
+    sql = re.sub(r"(?<![:\w]):(\w+)", lambda mo: str(int(params[mo.group(1)])), sql)
+    return _ws(sql.replace("::INTEGER", "")), "HIT" in str(hit)
+
+
+def _run_text(d, sql, base_sql, conn, full_ref, nkey):
+    """[plan, rows] from the final SQL text of one execution"""
+    facts = _S["facts"]
+    if " AS mssql_rn " in sql:
+        p = _peel(sql)
+        if p is None or p[2] is None:
+            return [99, 10], [[-1]]
+        inner = p[1]
+        m = re.search(r", ROW_NUMBER\(\) OVER \(ORDER BY (.+?)\) AS mssql_rn FROM ", inner)
+        mb = re.search(r" ORDER BY (.*)$", base_sql)
+        shape = 2
+        anon = lambda x: re.sub(r"anon_\d+", "anon", x)  # subquery aliases are renumbered inside the wrapper
+        if m and mb and anon(m.group(1)) == anon(mb.group(1)) and inner.count(" ORDER BY ") == 0 and inner.count("ORDER BY ") == 1:
+            shape = 1 if inner.startswith("SELECT DISTINCT ") else 0
+        rows = [list(r) for r in conn.exec_driver_sql(sql)]  # the MSSQL text is SQLite syntax too
+        facts["wrapper_executed"] += 1
+        return [6, _text_preds(p[2], "mssql_rn"), shape], sorted(rows)
+    if "ROWNUM" in sql:
+        p1 = _peel(sql)
+        if p1 is None:
+            return [99, 11], [[-1]]
+        if p1[1].split(" FROM (")[0].endswith(", ROWNUM AS ora_rn"):
+            p2 = _peel(p1[1])
+            if p2 is None or p1[2] is None:
+                return [99, 12], [[-1]]
+            outer = _text_preds(p1[2], "ora_rn")
+            inner = _text_preds(p2[2], "ROWNUM") if p2[2] else []
+            plan = [7, inner, [outer]]
+            base_text = p2[1]
+        else:
+            if p1[2] is None:
+                return [99, 13], [[-1]]
+            outer = None
+            inner = _text_preds(p1[2], "ROWNUM")
+            plan = [7, inner, []]
+            base_text = p1[1]
+        if any(c == 9 for c, _ in inner + (outer or [])):
+            return plan, [[-1]]
+        rows = [list(r) for r in conn.exec_driver_sql(base_text)]  # innermost = the unlimited statement
+        lvl = []
+        k = 1
+        for r in rows:  # ROWNUM advances only when the row passes
+            if _holds(inner, k):
+                lvl.append((r, k))
+                k += 1
+        if outer is not None:
+            lvl = [(r, n) for r, n in lvl if _holds(outer, n)]
+        facts["oracle_interpreted"] += 1
+        return plan, sorted(r for r, _ in lvl)
+    plan = _text_plan(d, sql, base_sql)
+    if (plan[0] == 1 and abs(plan[1]) < 2**63) or (plan[0] == 3 and abs(plan[2]) < 2**63):
+        rows = [list(r) for r in conn.exec_driver_sql(sql)]
+        facts["executed_on_sqlite"] += 1
+    elif plan[0] == 99:
+        rows = [[-1]]
+    else:
+        rows = _interpret(plan, full_ref, nkey)
+        facts["interpreted"] += 1
+    return plan, rows
+
+
+def _impl_history(inp):
+    from sqlalchemy import exc
+
+    _, d, steps, ordered, distinct, nkey, pre, (qid, ek, tp, up) = inp
+    t_rows, u_rows = _unpack(tp, up)
+    conn = _conn(t_rows, u_rows)
+    dialect = _S["named"][d]
+    base = _base(qid)
+    full_ref = _dedup(pre) if distinct else pre
+    base_sql = _sql(base, dialect)
+    cache = {}
+    out = []
+    for lim, off in steps:
+        stmt = _apply(base, lim, off, ek)
+        try:
+            sql, hit = _final_sql(stmt, dialect, cache)
+        except exc.CompileError as e:
+            msg = str(e)
+            out.append([[8, 1 if "requires an order_by" in msg else 2 if "needs TOP" in msg else 3], []])
+            continue
+        _S["facts"]["cache_hits" if hit else "cache_misses"] += 1
+        plan, rows = _run_text(d, sql, base_sql, conn, full_ref, nkey)
+        out.append([plan, rows if ordered else []])
+    return out
+
+
 def impl(c):
     from sqlalchemy import exc
 
+    if _is_hist(c["in"]):
+        return _impl_history(c["in"])
     d, lim, off, ordered, distinct, nkey, pre, (qid, ek, tp, up) = c["in"]
     t_rows, u_rows = _unpack(tp, up)
     facts = _S["facts"]
@@ -915,6 +1128,13 @@ def _slice_spec(inp):
 
 
 def oracle(c, obs):
+    if _is_hist(c["in"]):
+        # every execution of the history must return the slice for ITS OWN values
+        for k, (inp, ob) in enumerate(zip(_step_inputs(c["in"]), obs)):
+            v = oracle({"in": inp}, ob)
+            if v:
+                return "execution %d of the cache history %s: %s" % (k + 1, c["in"][2], v)
+        return None
     d, lim, off, ordered, distinct, nkey, pre, _ = c["in"]
     if not ordered:
         return None  # no ORDER BY: "the fully ordered result" is not defined
@@ -934,7 +1154,8 @@ def oracle(c, obs):
 
 
 def match_finding(c, what):
-    d, lim, off, ordered, distinct, nkey, pre, _ = c["in"]
+    inp = _step_inputs(c["in"])[0] if _is_hist(c["in"]) else c["in"]
+    d, lim, off, ordered, distinct, nkey, pre, _ = inp
     if d == 4 and distinct and len({tuple(r) for r in pre}) < len(pre) and "wrapper form [6" in what:
         return "C18-mssql-rownumber-inside-distinct"
     return None
